@@ -13,7 +13,17 @@ class Facts:
             with open(p) as f:
                 self.crates[name] = json.load(f)
         self.bodies = {}
+        self.inlined = []     # (crate, caller, helper) triples of the normalisation pass
+        self.absorbed = {}    # crate -> paths of new private helpers that were inlined everywhere
+        import inline
+        inv = inline.load_inventory()
         for cname, c in self.crates.items():
+            if inv is not None and cname in inv.get("crates", {}):
+                absorbed, rep = inline.normalise(cname, c["bodies"], set(inv["crates"][cname]))
+                self.absorbed[cname] = sorted(absorbed)
+                self.inlined += [(cname, a, b) for a, b in rep]
+                if absorbed:
+                    c["bodies"] = [b for b in c["bodies"] if b["path"] not in absorbed]
             for b in c["bodies"]:
                 b["crate"] = cname
                 self.bodies[(cname, b["path"])] = b
@@ -55,6 +65,7 @@ class Facts:
                 "adts": len(c["adts"]),
                 "impls": len(c["impls"]),
                 "unsafe_blocks": len(c["unsafe_blocks"]),
+                "helpers_inlined": self.absorbed.get(cname, []),
             }
         return inv
 
